@@ -68,8 +68,8 @@ const (
 //	200b, 503b  answer with a 2-byte body, connection kept
 //	200c, 503c  answer with "Connection: close", then close
 //	rdclose     read the complete request, then close without a byte of answer
-//	drop        close without reading: a new connection right after accept, a kept connection as soon as the first
-//	            byte of the next request arrives
+//	drop        reset (RST) without reading: a new connection right after accept, a kept connection as soon as the
+//	            first byte of the next request arrives
 //	partial     read the request, send a truncated header block ("HTTP/1.1 200 OK\r\nContent-Le"), close
 func wireBehaviourClass(b string) string {
 	switch b {
@@ -222,6 +222,14 @@ func (s *wireTarget) serve() {
 	}
 }
 
+// reset makes the close that follows an abortive one (RST), whether or not request bytes are waiting unread: the
+// client then sees a reset connection and never a clean EOF, independent of timing.
+func reset(c net.Conn) {
+	if tc, ok := c.(*net.TCPConn); ok {
+		tc.SetLinger(0)
+	}
+}
+
 func (s *wireTarget) handle(c net.Conn, conn int) {
 	defer s.wg.Done()
 	defer func() {
@@ -234,6 +242,7 @@ func (s *wireTarget) handle(c net.Conn, conn int) {
 	for n := 1; ; n++ {
 		if n == 1 && s.next() == "drop" {
 			s.take(conn, n, false, "") // closed right after accept
+			reset(c)
 			return
 		}
 		if _, err := br.Peek(1); err != nil {
@@ -241,6 +250,7 @@ func (s *wireTarget) handle(c net.Conn, conn int) {
 		}
 		if n > 1 && s.next() == "drop" {
 			s.take(conn, n, false, "") // kept connection: closed as soon as the next request starts to arrive, unread
+			reset(c)
 			return
 		}
 		req, err := http.ReadRequest(br)
@@ -909,12 +919,13 @@ func wireSummary(wc WireCase, o wireObs) map[string]any {
 // ---- driver ------------------------------------------------------------------------
 
 var (
-	wireMu        sync.Mutex
-	wireExamples  []any
-	wireOutcomes  = map[string]bool{}
-	wireDisturbed bool
-	wireClassMu   sync.Mutex
-	wireClasses   = map[string]bool{}
+	wireMu         sync.Mutex
+	wireExamples   []any
+	wireOutcomes   = map[string]bool{}
+	wireDisturbed  bool
+	wireAssumption bool
+	wireClassMu    sync.Mutex
+	wireClasses    = map[string]bool{}
 )
 
 const (
@@ -945,6 +956,23 @@ func (c *checker) wireRun(wc WireCase) wireObs {
 			r.NotExhaustive("part e: a case hit a real-time limit twice (loaded machine) and was not judged")
 		}
 		return o
+	}
+	for id, l := range o.Logs {
+		for _, s := range l {
+			if s.ActErr != "" {
+				// "the attempt bound assumes lease mutations on the store succeed": nothing is claimed about this history
+				r.Add("histories_outside_assumption_lease_mutation_failed", 1)
+				wireMu.Lock()
+				first := !wireAssumption
+				wireAssumption = true
+				wireMu.Unlock()
+				if first {
+					fmt.Printf("ASSUMPTION-BROKEN property=C06 part=%s %s: message %s attempt %d: %s failed: %s (history not judged)\n", wc.Part, wc.String(), id, s.Attempt, s.Action, s.ActErr)
+					r.NotExhaustive("part e: a lease mutation failed on the store: histories outside the statement's assumption were not judged")
+				}
+				return o
+			}
+		}
 	}
 	finds, ws := judgeWire(wc, o)
 	r.Add("evaluations", 1)
